@@ -1,5 +1,7 @@
-rc_target("c16_math", flavour="asan")
-plan("C16", [T("c16_math", 30000, 300000)], min_nt=20000,
+# the portable variant divides by an operand after a zero test: make a lost zero test a trap even where the compiler
+# folds the division away
+rc_target("c16_math", flavour="asan", cxxflags=["-fsanitize=integer-divide-by-zero"])
+plan("C16", [T("c16_math", 20000, 200000)], min_nt=14000,
      rule="operand pairs / conversions on three implementation variants side by side against unsigned __int128; "
           "non-trivial = a generated pair whose exact sum or product is within 2 of the type's MAX on either side, or a "
           "generated conversion whose whole part saturates",
